@@ -64,13 +64,13 @@ type world struct {
 	ctx       context.Context
 	cancel    context.CancelFunc
 
-	rx      *fakeRx
-	msgs    map[int]*fakeTxMsg // transmitted message of transmitter thread t
-	rmsgs   map[uint32]*fakeRxMsg
-	parked  map[int]bool // transmitter believed to be in (or on its way to) select
-	stuck   map[int]bool
-	errInj  error
-	nsteps  int
+	rx     *fakeRx
+	msgs   map[int]*fakeTxMsg // transmitted message of transmitter thread t
+	rmsgs  map[uint32]*fakeRxMsg
+	parked map[int]bool // transmitter believed to be in (or on its way to) select
+	stuck  map[int]bool
+	errInj error
+	nsteps int
 }
 
 func newWorld() *world {
@@ -319,7 +319,9 @@ func (m *fakeRxMsg) MarshalFrame() (can.Frame, error) { m.access("other"); retur
 func (m *fakeRxMsg) Frame() can.Frame                 { m.access("other"); return can.Frame{} }
 func (m *fakeRxMsg) Reset()                           { m.access("other") }
 func (m *fakeRxMsg) String() string                   { m.access("other"); return "" }
-func (m *fakeRxMsg) Descriptor() *descriptor.Message  { return &descriptor.Message{Name: "Rx", ID: m.id} }
+func (m *fakeRxMsg) Descriptor() *descriptor.Message {
+	return &descriptor.Message{Name: "Rx", ID: m.id}
+}
 
 // ---------------------------------------------------------------- fake transmitted message
 
@@ -388,10 +390,13 @@ func (m *fakeTxMsg) Frame() can.Frame {
 	f.Data[1] = byte(v >> 8)
 	return f
 }
-func (m *fakeTxMsg) MarshalFrame() (can.Frame, error) { m.access(konst("other")); return can.Frame{}, nil }
-func (m *fakeTxMsg) UnmarshalFrame(can.Frame) error   { m.access(konst("other")); return nil }
-func (m *fakeTxMsg) Reset()                           { m.access(konst("other")) }
-func (m *fakeTxMsg) String() string                   { m.access(konst("other")); return "" }
+func (m *fakeTxMsg) MarshalFrame() (can.Frame, error) {
+	m.access(konst("other"))
+	return can.Frame{}, nil
+}
+func (m *fakeTxMsg) UnmarshalFrame(can.Frame) error { m.access(konst("other")); return nil }
+func (m *fakeTxMsg) Reset()                         { m.access(konst("other")) }
+func (m *fakeTxMsg) String() string                 { m.access(konst("other")); return "" }
 
 // ---------------------------------------------------------------- fake frame transmitter
 
@@ -435,7 +440,6 @@ func (w *world) finish(tid int, err error) {
 
 func (w *world) startReceiver(tid int, n *fakeNode, script []rxItem) {
 	w.rx = &fakeRx{w: w, script: script}
-	w.evt[tid] = make(chan struct{}, 1)
 	go func() {
 		w.reg(tid)
 		err := canrunner.RunMessageReceiver(w.ctx, w.rx, n, &fakeClock{})
@@ -444,7 +448,6 @@ func (w *world) startReceiver(tid int, n *fakeNode, script []rxItem) {
 }
 
 func (w *world) startTransmitter(tid int, n *fakeNode, m *fakeTxMsg) {
-	w.evt[tid] = make(chan struct{}, 1)
 	go func() {
 		w.reg(tid)
 		err := canrunner.RunMessageTransmitter(w.ctx, &fakeTx{w: w, m: m}, n, m, &fakeClock{})
